@@ -17,7 +17,7 @@ func (c15) Size(tier string) Size {
 	if tier == "thorough" {
 		return Size{Batches: 16, Cases: 60000}
 	}
-	return Size{Batches: 4, Cases: 8000}
+	return Size{Batches: 16, Cases: 8000}
 }
 func (c15) Rule() string {
 	return "case = schema of 0-5 soft types x 0-4 relationships built coherent and then perturbed with 0..n planted faults (missing target, missing / misnamed / mis-typed inverse, wrong FromType on one-way and two-way relationships, self-referential relationships, nil maps); oracle = my own predicate offending(rel): len(Check())==0 iff no offending relationship, len(Check()) >= number of offending relationships, no panic, deep schema fingerprint unchanged. Names include '_' (a_b / b_c style collisions); in 2 of 5 types the Rels map keys are not the relationships' FromName (prefixed, or rotated among siblings): a relationship is what it says, not the key it is stored under. Non-trivial = >= 2 relationships with at least one naming an inverse."
